@@ -25,14 +25,15 @@ TEXT = {
             'length <=5 with inf/NaN anywhere in package order.'),
     'C05': ('exploration', 'exhaustive enumeration + hypothesis stateful machine vs list model',
             'All chi^2 vectors of length 0..5 over an alphabet with ties/inf/NaN x all selector forms are enumerated against a '
-            'reference predicate; longer vectors and keep() compositions (interleaved with in-place edits of the source flags) are '
-            'explored with a rule-based state machine.'),
+            'reference predicate; longer vectors and keep() compositions (interleaved with in-place edits of the source flags and with '
+            'round trips through a fit file shared by several states of the same objects) are explored with a rule-based state machine.'),
     'C06': ('exploration', 'hypothesis @given + exact piecewise-linear integrator (differential + metamorphic)',
             'Generated filters and SED grids on an integer lattice (forcing coincidences) and irregular grids; each rebinned '
             'response is compared with an exact Fraction integral; sum, normalisation, linearity and quadrature are checked.'),
     'C07': ('exploration', 'hypothesis @given, independent FITS writer/reader, per-file vs cube differential',
             'Generated packages emitted in both formats by an independent writer; convolved files are read by an independent '
-            'reader and compared row by row with reference integrals and with each other; fits from all variants compared.'),
+            'reader and compared row by row with reference integrals and with each other; fits from all variants compared (incl. that '
+            'per-file and cube variants use one distance grid for ranges that are a whole number of steps up to rounding).'),
     'C08': ('exploration', 'hypothesis @given end-to-end planted-model recovery',
             'Planted (model, A_V, scale/distance) photometry for 1..3 sources per data file is pushed through convolve -> fit -> '
             'write_parameters (parameter rows optionally re-ordered after convolution, SED files / cubes stored in several units) '
@@ -58,15 +59,15 @@ TEXT = {
     'C16': ('exploration', 'exhaustive chunk-size x window enumeration over generated packages',
             'For generated small packages every chunk size 1..n_wav and every window is enumerated; file set, contents and '
             'returned table are compared with a reference and across chunk sizes.'),
-    'C17': ('exploration', 'hypothesis @given over fits of cube packages, LineCollection inspection',
-            'Generated cube packages fitted at tabulated wavelengths; the returned LineCollection is compared with the stored '
+    'C17': ('exploration', 'hypothesis @given over fits of cube and per-file packages, LineCollection inspection',
+            'Generated cube packages and per-file packages (SED files plain / .gz / in sub-directories) fitted at tabulated wavelengths; the returned LineCollection is compared with the stored '
             'predicted fluxes, curve counts and drawing order.'),
     'C18': ('exploration', 'hypothesis @given + multiset/ordering oracle on the two output files',
             'Generated FitInfo sequences split by chi/cpd; outputs read back and compared bit-exactly with the input.'),
     'C19': ('fault_enumeration', 'exhaustive truncation-offset enumeration of generated files',
             'Every truncation offset 0..len-1 of generated fit output files is tried (files holding a record of thousands of fits '
-            'are sampled densely at both ends and around record boundaries); reading must raise or give an exact prefix of the '
-            'written records.'),
+            'are sampled densely at both ends and around record boundaries; records built from fresh objects or from one re-used Source '
+            'object); reading must raise or give an exact prefix of the written records.'),
     'C20': ('exploration', 'hypothesis @given + reference parser, every column count per line',
             'Generated data lines x every column count 0..3n+6 against a reference parser written from data.rst; ascii, '
             'dict and pickle round trips.'),
